@@ -1,13 +1,13 @@
 package main
 
 import (
-	"sort"
 	"fmt"
 	"go/ast"
 	"go/constant"
 	"go/parser"
 	"go/token"
 	"go/types"
+	"sort"
 	"strconv"
 	"strings"
 
@@ -21,9 +21,9 @@ type TV struct {
 }
 
 type Env struct {
-	vars map[string]TV
-	pkg  *types.Package
-	old  *State // state for old(...) in postconditions
+	vars    map[string]TV
+	pkg     *types.Package
+	old     *State // state for old(...) in postconditions
 	loopOld *State // state on entry of the loop whose invariant is being evaluated (loopframe)
 }
 
@@ -737,8 +737,10 @@ func (x *X) heapIn(st *State, key string) string {
 // maps), at arrays owned by them (array fields), at the listed backing arrays
 // (slices) and at objects that did not exist in the old state.
 // Each heap key that differs gets a proxy Q with
-//   Q => forall r not listed/fresh: cur[r] == old[r]      (pattern on cur[r])
-//   not Q => a skolem witness r not listed/fresh with cur[r] != old[r]
+//
+//	Q => forall r not listed/fresh: cur[r] == old[r]      (pattern on cur[r])
+//	not Q => a skolem witness r not listed/fresh with cur[r] != old[r]
+//
 // so the builtin can be used on either side of an obligation.
 func (x *X) evalTouches(env *Env, e *ast.CallExpr, old *State) string {
 	if old == nil {
